@@ -35,7 +35,7 @@ def gen_case(seed, i):
         t = rng.choice(xform.TRANSFORMS)
         cfg["transform"] = t[0]
         cfg["transform_flags"] = list(t[1])
-    world, roots = gen.gen_world(rng, cfg, nroots=rng.choice([1, 1, 2]), hostile=rng.random() < 0.5,
+    world, roots = gen.gen_world(rng, cfg, nroots=rng.choice([1, 2, 2, 3]), hostile=rng.random() < 0.5,
                                  max_files=rng.choice([6, 12, 24]))
     if cfg.get("transform") and rng.random() < 0.7:
         for e in world.entries:
@@ -46,8 +46,17 @@ def gen_case(seed, i):
         gflags.append(rng.choice(["-S", "-L", "-H"]))
     if rng.random() < 0.15:
         gflags += ["--min", "0"]
-    if rng.random() < 0.1:
+    # the replication filter and --isolate change which classes are REPORTED, never what may share a group:
+    # a reported group must be byte-identical under every filter (singletons and under-replicated classes too)
+    r_ = rng.random()
+    if r_ < 0.1:
         gflags += ["--rf-over", "0"]
+    elif r_ < 0.2:
+        gflags += ["--unique"]
+    elif r_ < 0.3:
+        gflags += ["--rf-under", rng.choice(["2", "3", "4"])]
+    if len(roots) >= 2 and "-L" not in gflags and rng.random() < 0.4:
+        gflags.append("--isolate")
     fm = rng.choice(["none", "none", "short", "short", "delay"])
     return {"i": i, "cfg": cfg, "world": world.to_json(), "roots": roots, "gflags": gflags, "fault": fm,
             "seam_seed": rng.randint(1, 10**9)}
